@@ -7,6 +7,7 @@ SM=${SM:-/tmp/smb}
 BIN=${VSTATIC_BIN:-/verif/bin/vstatic}
 [ $# -eq 0 ] && set -- /verif/seeded/_benign/*.diff
 for pf in "$@"; do
+  pf=$(realpath $pf)
   name=$(basename $pf .diff)
   rm -rf $SM && mkdir -p $SM && cp -r ${REPO_SRC:-/repo} $SM/repo
   if ! git -C $SM/repo apply $pf 2>/dev/null; then echo "$name PATCH-DOES-NOT-APPLY"; continue; fi
